@@ -60,9 +60,22 @@ def run(prop, tier, seed):
                         [{"outcomes": {k: v for k, v in sigs.items()}}], "operand forms / optimizer settings disagree with each other")
     # (3) instruction level: every peephole rewrite the optimizer applied, every assembled instruction and every executed
     # instruction of a sample of the programs is validated against spec/vm/AbraVM.tla (TraceVM.tla)
+    # sample: the optimized program of one grid case per (type, operator, operand form) - every rewrite shape the grid can
+    # provoke is then logged at least once, whatever part of the grid this run took - plus generated programs (both settings)
     nprog = 40 if tier == "quick" else 500
-    pick = [c for c in cases if c.get("inmodel") or "group" in c]
-    vmcov = vmlib.trace_leg(rep, prop, pick, wd, 2 * nprog, jobs=8, maxsteps=4000)
+    seen_shape = set()
+    pick = []
+    for c in cases:
+        if "group" in c and c["opt"]:
+            shape = (c["ty"], c["op"], c["form"])
+            if shape not in seen_shape or tier != "quick":
+                seen_shape.add(shape)
+                pick.append(c)
+    gens = [c for c in cases if "group" not in c and c.get("inmodel")]
+    pick += gens[::max(1, len(gens) // (2 * nprog))][:2 * nprog]
+    if tier != "quick":
+        pick = pick[::max(1, len(pick) // 1500)]
+    vmcov = vmlib.trace_leg(rep, prop, pick, wd, len(pick), jobs=8, maxsteps=1500)
     # (4) the optimizer and the assembler on the repository's own programs (compile only): every rewrite applied to the
     # corpus extracted from the tests, examples and module tests - and, with them, to the prelude - is validated
     corpus = [{"id": "corpus:" + p["name"], "files": {"main.abra": p["text"]}}
